@@ -196,11 +196,11 @@ def run_fista_converged(p, x0, eps=0.0, lr=None, arrays=None):
 # witnesses live in corpus/C13/*.json and run first.
 # A fourth one (round 5): fista(ridge_coef=None) raised TypeError although the docstring offers `float or None`; repaired by ae57725
 # (Example C13_fista_ridge_none_before_ae57725; the entry-call cases C'' pass ridge_coef=None on every run).
-# A fifth one (round 7, found when the whole function admm was modelled): admm(n_const=1, <constraint>) with `order` left at its default
-# None raised TypeError; repaired by /repo a5b9e5b (Example C13_admm_order_none_before_a5b9e5b).  Open: admm(n_iter_max=0) raises
-# UnboundLocalError (x_split never bound) -> known finding admm_zero_iterations (candidate build/fix_candidates/C13_admm_zero_iterations.diff).
+# A fifth and a sixth one (round 7, found when the whole function admm was modelled): admm(n_const=1, <constraint>) with `order` left at its
+# default None raised TypeError (repaired by /repo a5b9e5b), admm(n_iter_max=0) raised UnboundLocalError (repaired by /repo fe4edf7); Examples
+# C13_admm_order_none_before_a5b9e5b, C13_admm_zero_iterations_before_fe4edf7; the whole-function cases pass order=None and n_iter_max=0.
 from harness.props import C13_admm
-CLASSIFIERS = {"admm_zero_iterations": C13_admm.clf_admm_zero_iterations}
+CLASSIFIERS = {}     # no known finding at present
 
 
 def _load_known_with_own_snippet():
